@@ -23,7 +23,10 @@ fn plain(db: &Db, rng: &mut Rng) -> String {
 }
 
 fn other(db: &Db, rng: &mut Rng) -> String {
-    match rng.below(24) {
+    match rng.below(26) {
+        // the clock is read on every query, wherever `now` stands in it
+        24 => (*rng.pick(&["sqrt(((now - #2000-01-01 00:00:00 +00:00#)/s)^2)", "hypot((now - #2000-01-01 00:00:00 +00:00#)/s, 0)", "exp(ln((now - #2000-01-01 00:00:00 +00:00#)/s))"])).into(),
+        25 => "now".into(),
         // a conversion that only changes the notation of a *new* number must not touch `ans`
         16 => format!("{} to {}", 2 + rng.below(5000), rng.pick(&["hex", "oct", "bin", "base 7", "sci", "eng", "frac", "digits 12", "digits"])),
         17 => format!("{}|{} -> {}", 1 + rng.below(50), 1 + rng.below(50), rng.pick(&["frac", "digits 20", "base 12", "sci"])),
@@ -31,8 +34,9 @@ fn other(db: &Db, rng: &mut Rng) -> String {
         // names that are resolved on the fly (chemical formulas, substances): nothing may be left behind in the database
         19 => (*rng.pick(&["C2H6O", "NaCl", "H2O2", "C8H10N4O2", "CH3COOH", "Fe2O3"])).into(),
         20 => format!("molar_mass of {}", rng.pick(&["C2H6O", "NaCl", "H2O2", "water", "gold"])),
-        21 => format!("search {}", rng.pick(&["C2H6O", "NaCl", "meter", "H2O2", "gold"])),
-        22 => (*rng.pick(&["C2H6Oo", "NaCll", "nosuchh", "H2O22x"])).into(),
+        // an unknown name (the error suggests one similar name) and, in the same session, a search for it (five results)
+        21 => format!("search {}", rng.pick(&["C2H6O", "NaCl", "meter", "H2O2", "gold", "meterz", "kilogramm", "secnd", "joul"])),
+        22 => if rng.chance(1, 2) { (*rng.pick(&["C2H6Oo", "NaCll", "nosuchh", "H2O22x"])).into() } else { format!("{} {} + 1", 1 + rng.below(9), rng.pick(&["meterz", "kilogramm", "secnd", "joul"])) },
         23 => format!("{} water", 1 + rng.below(9)),
         0 => format!("{} {} -> {}", 1 + rng.below(9), db.rand_name(rng), db.rand_name(rng)),   // conversion (often an error)
         1 => "12 ft -> m".into(),
